@@ -731,6 +731,7 @@ func gen(r *rand.Rand, tier string) []string {
 	out = append(out, round4Cases(r, tier)...)
 	out = append(out, round4csvCases(r, tier)...)
 	out = append(out, round4masCases(r, tier)...)
+	out = append(out, round6Cases(r, tier)...)
 	nBig := 3
 	if tier == "thorough" {
 		nBig = 60
